@@ -55,8 +55,23 @@ func randomBoundary() string {
 
 func NewViaModifierWithBoundary(requestedBy, boundary string) *ViaModifier {
 	return &ViaModifier{
-		tag: requestedBy + "-" + boundary,
+		tag: pseudonym(requestedBy) + "-" + boundary,
 	}
+}
+
+// pseudonym makes a name fit to be the received-by part of a Via element, a token: a blank, a comma
+// or a parenthesis in it would make the element one this modifier does not recognise when it comes back.
+func pseudonym(name string) string {
+	return strings.Map(func(r rune) rune {
+		switch {
+		case 'a' <= r && r <= 'z', 'A' <= r && r <= 'Z', '0' <= r && r <= '9':
+			return r
+		case strings.ContainsRune("!#$%&'*+-.^_`|~", r):
+			return r
+		default:
+			return '_'
+		}
+	}, name)
 }
 
 // ModifyRequest sets the Via header and provides loop-detection. If Via is
